@@ -939,8 +939,29 @@ func VerifC20NilComponents() {
 func VerifC20SameReason() {
 	ctx := context.Background()
 	vcfg("fifo", 1)
-	shape := vchoose("shape", 2)
+	shape := vchoose("shape", 5)
+	cond := func(ctx context.Context, in map[string]any) (string, error) { return "x", nil }
 	build := func() error {
+		switch shape {
+		case 2: // a branch with two unknown end nodes
+			g := NewGraph[map[string]any, map[string]any]()
+			_ = g.AddLambdaNode("a", vNode("a", nil))
+			return g.AddBranch("a", NewGraphBranch(cond, map[string]bool{"x": true, "y": true}))
+		case 3: // a chain branch whose two nodes both need a state the chain does not have
+			pre := func(ctx context.Context, in map[string]any, s *int) (map[string]any, error) { return in, nil }
+			cb := NewChainBranch(cond)
+			cb.AddLambda("x", vNode("x", nil), WithStatePreHandler(pre))
+			cb.AddLambda("y", vNode("y", nil), WithStatePreHandler(pre))
+			_, err := NewChain[map[string]any, map[string]any]().AppendBranch(cb).Compile(ctx)
+			return err
+		case 4: // two static values that both conflict with mapped fields
+			wf := NewWorkflow[map[string]any, map[string]any]()
+			wf.AddLambdaNode("a", vNode("a", nil)).AddInput(START)
+			wf.End().AddInput("a", ToField("x")).AddInput(START, ToField("y")).
+				SetStaticValue(FieldPath{"x"}, "1").SetStaticValue(FieldPath{"y"}, "2")
+			_, err := wf.Compile(ctx)
+			return err
+		}
 		g := NewGraph[map[string]any, map[string]any]()
 		if shape == 0 {
 			for _, k := range []string{"a", "b", "c"} {
@@ -961,10 +982,16 @@ func VerifC20SameReason() {
 		_, err := g.Compile(ctx, WithNodeTriggerMode(AllPredecessor))
 		return err
 	}
-	e1 := build()                 // one attempt in the default order of the maps ...
-	vcfgMapOrderIn("validateDAG") // (the maps of the cycle check; those of compile itself are too many to enumerate)
-	e2 := build()                 // ... and one in any order
-	vcfgMapOrderIn("-validateDAG")
+	// the maps whose order decides which offender is met first (those of graph.compile itself are too many to enumerate)
+	marked := []string{"validateDAG", "", "graph).addBranch", "AppendBranch", "compose.Workflow["}[shape]
+	e1 := build() // one attempt in the default order of the maps ...
+	if marked != "" {
+		vcfgMapOrderIn(marked)
+	}
+	e2 := build() // ... and one in any order
+	if marked != "" {
+		vcfgMapOrderIn("-" + marked)
+	}
 	vassert(e1 != nil && e2 != nil, "the ill-formed graph is rejected on every attempt")
 	if e1 != nil && e2 != nil {
 		vassert(e1.Error() == e2.Error(), "and for the same stated reason on every attempt")
